@@ -121,6 +121,12 @@ func runC17(c *Ctx) {
 				}
 			}
 		}
+		// ... or, most generally, some path from the loop's entry reaches the re-read without passing the wait
+		if !okInit {
+			if reachAvoidFromBlock(loop.Blocks[0], isReread, func(i ssa.Instruction) bool { return i == ssa.Instruction(sel) }) != nil {
+				okInit, how = true, "the first iteration reaches the re-read without waiting"
+			}
+		}
 		c.check(okInit, "initial-check", name, sel.Pos(), "the loop looks at the file once when it starts ("+how+")",
 			"the watch loop waits for an event before its first look at the file: a change made between the initial read (dials.Config / Blank.SetSource read the value first and start the watcher later) and the setup of the watches raises no event, so if it was the last change the view never converges to the file's final content")
 	}
